@@ -17,3 +17,4 @@ import Bmc.Proofs.EndToEnd.WalkC14
 #print axioms Bmc.Proofs.GenOrch.walkSDRs_gen_eq
 #print axioms Bmc.Proofs.GenOrch.RetrieveSDRRepository_gen_eq
 #print axioms Bmc.Proofs.EndToEnd.generated_walkSDRs_complete
+#print axioms Bmc.Proofs.EndToEnd.generated_RetrieveSDRRepository_snapshot
